@@ -115,7 +115,38 @@ def run_pack(mod, pkt, with_events=True):
     return out
 
 
+def poison(pkt, depth=0):
+    """what an application does with a packet it has parsed and is done comparing: lists are changed IN PLACE (a junk element
+    appended, at every depth).  Nothing of it may show in any packet parsed later (an empty list handed out for an absent
+    sequence, a default, a scratch list must not be one shared object)."""
+    from bind import observe
+    if depth > 4:
+        return
+    for name, _f, _p, _u in type(pkt).get_fields():
+        try:
+            v = getattr(pkt, name)
+        except AttributeError:
+            continue
+        if isinstance(v, list):
+            for x in v:
+                if isinstance(x, observe.Packet):
+                    poison(x, depth + 1)
+            v.append(0x5A5A5A)
+        elif isinstance(v, observe.Packet):
+            poison(v, depth + 1)
+
+
 def compare_case(mod, d, case, gen, opts):
+    mm, ro, po = _compare_case(mod, d, case, gen, opts)
+    if ro is not None and ro.get("st") == "done" and ro.get("pkt") is not None:
+        try:
+            poison(ro["pkt"])
+        except Exception:
+            pass
+    return mm, ro, po
+
+
+def _compare_case(mod, d, case, gen, opts):
     """opts: dict of booleans selecting observables: values, cursor, reads, err, pack, writes, events.
     Returns list of (clause, detail)."""
     mm = []
